@@ -196,6 +196,9 @@ pub struct Case {
     pub interloper_at: Option<(u64, u64)>,
     /// never run predecessor connections before this case (it is one itself)
     pub no_predecessors: bool,
+    /// run the heavy predecessor (a 16 MiB text row whose numeric cells meet a write error exactly at
+    /// the packet boundary) in front of this case, whatever the case's own input would have chosen
+    pub heavy_predecessor: bool,
     pub conv: bool,
     pub log_reads: bool,
     /// 0 = derive from input size
@@ -228,6 +231,7 @@ impl Case {
             no_interloper: false,
             interloper_at: None,
             no_predecessors: false,
+            heavy_predecessor: false,
             conv: false,
             log_reads: true,
             budget_ops: 0,
@@ -327,6 +331,7 @@ thread_local! {
     /// set while a predecessor connection runs (no predecessors for predecessors)
     static IN_PRELUDE: std::cell::Cell<bool> = const { std::cell::Cell::new(false) };
     pub static PRELUDES_RUN: std::cell::Cell<u64> = const { std::cell::Cell::new(0) };
+    pub static HEAVY_PRELUDES_RUN: std::cell::Cell<u64> = const { std::cell::Cell::new(0) };
     /// interlopers run on behalf of cases of this worker thread
     pub static INTERLOPERS_RUN_HERE: std::cell::Cell<u64> = const { std::cell::Cell::new(0) };
 }
@@ -344,12 +349,15 @@ fn run_predecessors(case: &Case) {
     }
     let (input, _) = case.input();
     let h = hash128(&input).0 ^ 0x9E37_79B9_7F4A_7C15 ^ case_salt();
-    if h % 6 != 0 {
+    if h % 6 != 0 && !case.heavy_predecessor {
         return;
     }
     IN_PRELUDE.with(|f| f.set(true));
     let mut r = Rng::for_case(h, "predecessor", 0);
-    let heavy = h % 150 == 0;
+    let heavy = h % 150 == 0 || case.heavy_predecessor;
+    if heavy {
+        HEAVY_PRELUDES_RUN.with(|n| n.set(n.get() + 1));
+    }
     for round in 0..r.range(1, 3) {
         let variant = if heavy && round == 0 { 8 } else { [0u64, 1, 2, 3, 4, 5, 6, 7, 9, 10][r.usize(10)] };
         let mut c = aux_case(&mut r, variant, h, case.tls.is_some());
@@ -870,6 +878,7 @@ where
                         continue;
                     }
                     let (pre0, int0) = (PRELUDES_RUN.with(|n| n.get()), INTERLOPERS_RUN_HERE.with(|n| n.get()));
+                    let heavy0 = HEAVY_PRELUDES_RUN.with(|n| n.get());
                     if ctx.miri && i >= 1 && START.get_or_init(std::time::Instant::now).elapsed().as_secs() > MIRI_BUDGET_S {
                         rep.counters.inc("miri_cases_not_started_time_budget_used_up");
                         continue;
@@ -883,6 +892,7 @@ where
                         rep.inconclusive.push(format!("harness panic in {} case {}: {:?}", tag, i, p));
                     }
                     rep.counters.add("predecessor_connections_run_on_the_same_thread", PRELUDES_RUN.with(|n| n.get()) - pre0);
+                    rep.counters.add("cases_behind_the_heavy_predecessor_16MiB_text_row_cut_by_a_write_error", HEAVY_PRELUDES_RUN.with(|n| n.get()) - heavy0);
                     rep.counters.add("interloper_connections_served_by_another_thread_meanwhile", INTERLOPERS_RUN_HERE.with(|n| n.get()) - int0);
                     for v in rep.violations[before..].iter_mut() {
                         v.case_group = group.to_string();
